@@ -65,3 +65,9 @@ claim("C13", "who-may-call rules, `event == Evict` control-dependence atoms, con
       "flush pipes evict() garbage only (tagged Evict), the Replace/Remove/Clear/Evict constants of every leave path, that every record taken "
       "out of the index is queued with an event or returned, and that the garbage-draining siblings agree and run outside the shard lock. "
       "Exactly-once over histories is not decided.", "DESIGN.md §4 C13")
+claim("C15", "async-aware ordering rules (await points), control-dependence on flags, must-pass loops, sibling agreement of close paths",
+      "Decides that close sets the closed flag first and a second close is a no-op, that memory is flushed iff flush_on_close and the close "
+      "future is polled only after the flush future completed, that flush evicts every shard to zero and every evicted record reaches the pipe, "
+      "which drains pending writes first and enqueues all but in-memory-only pieces, that the engine tests `active` before allocating or "
+      "submitting and close deactivates then waits, and that Drop and close() run the same close_inner with the cache's own fields. "
+      "Capacity of the flush buffer and reopen contents are not decided.", "DESIGN.md §4 C15")
